@@ -162,6 +162,29 @@ pub fn gen_raw_code(rng: &mut Rng) -> (Vec<u8>, &'static str) {
             }
             (a.finish(), "call-family-operands")
         }
+        9 => {
+            // fill the stack to the limit (±2), then stack instructions at the boundary
+            let n = 1022 + rng.usize(5);
+            let mut c = vec![];
+            for _ in 0..n {
+                match rng.below(3) {
+                    0 => c.push(0x5f),
+                    1 => c.extend_from_slice(&[0x60, rng.below(256) as u8]),
+                    _ => c.push(0x30),
+                }
+            }
+            let m = 1 + rng.usize(6);
+            for _ in 0..m {
+                match rng.below(5) {
+                    0 => c.push(0x80 + rng.below(16) as u8),
+                    1 => c.push(0x90 + rng.below(16) as u8),
+                    2 => c.push(0x50),
+                    3 => c.extend_from_slice(&[0x61, 1, 2]),
+                    _ => c.push(0x5f),
+                }
+            }
+            (c, "stack-at-the-limit")
+        }
         _ => {
             let spec = random_spec(rng, false);
             let f = Features::swarm(rng, spec);
